@@ -26,20 +26,12 @@ META = {
 PRODUCER_ACTIONS = ["EmitTok", "XNull", "XBool", "XInt", "XReal", "XName", "XLit", "XHex", "XRef", "XArr", "XDict"]
 
 
-def gen_files(w, tag, ndocs, nfiles, seed, max_objects=6):
+def gen_files(w, tag, ndocs, nfiles, seed, max_objects=6, max_revs=1):
+    """seeded abstract documents (histories when max_revs > 1) -> TLC Producer in simulation mode -> files"""
     docs = os.path.join(w, "docs-%s.ndjson" % tag)
-    run_bin("c02", ["docs", "--seed", seed, "--n", ndocs, "--max-objects", max_objects, "--out", docs])
-    env = dict(DOCS=docs, VERIF_SEED=str(seed))
-    old = os.environ.get("VERIF_SEED")
-    os.environ["VERIF_SEED"] = str(seed)
-    try:
-        r = tlc("Gen_File.tla", "Gen_File.cfg", workers=1, simulate=nfiles, depth=6000, env=env, timeout=3000,
-                name="genfile-" + tag, xmx="3g")
-    finally:
-        if old is None:
-            os.environ.pop("VERIF_SEED", None)
-        else:
-            os.environ["VERIF_SEED"] = old
+    run_bin("c02", ["docs", "--seed", seed, "--n", ndocs, "--max-objects", max_objects, "--max-revs", max_revs, "--out", docs])
+    r = tlc("Gen_File.tla", "Gen_File.cfg", workers=1, simulate=nfiles, depth=8000, env=dict(DOCS=docs), timeout=3000,
+            name="genfile-" + tag, xmx="3g", seed_override=seed & 0x7FFFFFFF)
     return r, r.tagged("REPLAY")
 
 
@@ -76,6 +68,9 @@ def run(tier):
             raise vlib.ToolError("vacuous: no generated file with cross-reference style %s" % k)
     chk.extra["xref_styles"] = dict(kinds)
     chk.extra["w_layouts"] = dict(collections.Counter(str(f["w"]) for f in files if f["xref"].startswith("stream")))
+    chk.extra["files_with_object_streams"] = sum(1 for f in files if f["ncomp"] > 0)
+    if chk.extra["files_with_object_streams"] == 0:
+        raise vlib.ToolError("vacuous: no generated file uses object streams")
     fin, tr = os.path.join(w, "files.ndjson"), os.path.join(w, "trace.ndjson")
     write_ndjson(fin, files)
     run_bin("c02", ["load", "--in", fin, "--out", tr])
@@ -100,11 +95,9 @@ def run(tier):
             chk.traces += 1
             continue
         d = v["d"]
-        if d.get("verbatim") is True:
-            sig = "C02:lit.rawCR"
-        else:
-            sig = "C02:" + v["v"] + ":" + "+".join(sorted(d.get("kinds", []))) if d.get("kinds") else "C02:" + v["v"]
-        chk.violation(sig, {"verdict": d, "knobs": f["knobs"], "bytes": f["bytes"], "loaded": rec["doc"], "load_result": rec["res"]})
+        detail = {"verdict": d, "knobs": f["knobs"], "bytes": f["bytes"], "loaded": rec["doc"], "load_result": rec["res"]}
+        for sig in signatures("C02", v):
+            chk.violation(sig, detail)
     for f in files[:2]:
         chk.sample({"knobs": {k: f[k] for k in ("xref", "w", "order", "junk")}, "file_ascii": bytes(f["bytes"]).decode("latin-1")[:500]})
     # (B) negative control: a loaded document with one string byte changed must be rejected
@@ -124,6 +117,26 @@ def run(tier):
         raise vlib.ToolError("negative control accepted: corrupted loaded string not detected")
     chk.extra["negative_controls_rejected"] = 1
     return chk.finish()
+
+
+def signatures(pid, v):
+    """narrow signatures of a failed Load verdict (classes computed by the spec: Lifecycle!WhyObjects)"""
+    d = v["d"]
+    if v["v"] == "load-object-differs":
+        sigs = set()
+        for w in d["why"]:
+            if w["why"] == "lit-eol":
+                sigs.add("C02:lit.rawCR")
+            elif w["why"].startswith("stale."):
+                sigs.add("C07:" + w["why"])
+            else:
+                sigs.add("%s:load-object-differs:%s" % (pid, "+".join(sorted(w["kinds"]))))
+        return sorted(sigs)
+    if v["v"] == "load-trailer-differs" and d.get("verbatim") is True:
+        return ["C02:lit.rawCR"]
+    if d.get("kinds"):
+        return ["%s:%s:%s" % (pid, v["v"], "+".join(sorted(d["kinds"])))]
+    return ["%s:%s" % (pid, v["v"])]
 
 
 def mutate_first_string(doc):
